@@ -15,7 +15,8 @@ PROPERTY_FILE = "Properties/C11.v"
 TIE = "Tie.C11"
 DRIVER = "c11_driver.py"
 DRIVER_TIMEOUT = 1500
-THEOREMS = ["C11_discipline_safe", "C11_skeleton_disciplined", "C11_todays_code_safe", "C11_no_stale_survivor",
+THEOREMS = ["C11_discipline_safe", "C11_skeleton_disciplined", "C11_inlining_preserves_discipline",
+            "C11_call_trees_safe", "C11_inlined_paths_safe", "C11_todays_code_safe", "C11_no_stale_survivor",
             "C11_store_detached", "C11_atomic_answer", "C11_readers_only_safe"]
 RULE = ("one case = lookup flavour (LookupBase / VerifyingBase subclass) x entry point (lookup, lookup1, adapter_hook, "
         "queryAdapter, lookupAll, subscriptions, Interface.__call__ through adapter_hooks) x callback point out of the "
@@ -29,7 +30,8 @@ TRUSTED_BASE = [
     "CPython API call (returns new/borrowed, steals, may run Python); fail-closed on anything unknown",
     "the event semantics of Model/Own.v as a model of CPython reference counting under the GIL (C code is atomic "
     "between may-call points; the environment is reference-count correct)",
-    "summary treatment of calls between skeleton functions (arguments used, may-call, arguments used, new reference)",
+    "the extractor's correlation of NULL arguments with the callee paths that do not touch that parameter, and its "
+    "modelling of a constant argument (Py_None) as a temporary reference held by the caller",
     "sys.getrefcount / gc.get_referents as observations of ownership",
 ]
 ASSUMPTIONS = [
@@ -44,8 +46,11 @@ TECHNIQUE = ("Coq proof of an ownership discipline over a reference-counting mac
              "probes on plain and AddressSanitizer builds")
 LEVEL_TEXT = ("Machine-checked: a path that keeps to the ownership discipline D never uses a freed object, never "
               "over-releases and returns balanced under EVERY environment behaviour (C11_discipline_safe, induction over "
-              "the event list); today's extracted skeleton of the 13 C functions satisfies D on every path, key "
-              "__hash__/__eq__ callbacks included (C11_skeleton_disciplined, recomputed from the C text on every run); "
+              "the event list); today's extracted skeleton of 23 C functions (the lookup code and providedBy / implementedBy / "
+              "getObjectSpecification / __call__ / __adapt__ / the descriptors) satisfies D, and the stronger Dc, on every "
+              "path, key __hash__/__eq__ callbacks included (C11_skeleton_disciplined, recomputed from the C text on "
+              "every run); inlining a disciplined callee path at a call site preserves the discipline "
+              "(C11_inlining_preserves_discipline), so whole call trees to any depth are safe (C11_call_trees_safe); "
               "in the handle model of cached lookups no pre-mutation answer is reachable after changed(), interrupted "
               "stores go to a detached dictionary, every returned answer is the uncached answer of a state inside the "
               "lookup's window, readers alone always get the one right answer — for any number of threads and any "
@@ -55,21 +60,33 @@ LEVEL_TEXT = ("Machine-checked: a path that keeps to the ownership discipline D 
 LEVEL_NOTE = ("partial: (1) the machine is a model of CPython: real preemption inside the interpreter, allocator / free-list "
               "reuse and what a stray write actually destroys are not modelled — supporting evidence only: 3 readers + 1 "
               "mutator thread stress, a readers-only stress, and re-entrancy probes without protective references on a "
-              "plain and an AddressSanitizer build, in extra(); (2) calls between skeleton functions are replaced by "
-              "summaries (compositionality is argued, not proved); (3) tuple items are identified with their tuple; "
+              "plain and an AddressSanitizer build, in extra(); (2) compositionality of calls is now PROVED "
+              "(C11_inlining_preserves_discipline, C11_call_trees_safe: whole call trees, any depth); what stays an "
+              "assumption there is the extractor's pairing of call sites with callee paths (a NULL argument <-> the "
+              "callee paths that never touch that parameter) and that a constant argument is modelled as a temporary "
+              "reference; (3) tuple items are identified with their tuple; loops are unrolled 0-2 times; an index "
+              "into a list whose length was cached is not expressible (the extractor poisons such a path instead); "
               "(4) key __hash__/__eq__ callbacks are over-approximated: every dictionary operation on a non-static key "
-              "is a may-call point; (5) providedBy/implementedBy are table entries (may call Python, return a new "
-              "reference), their bodies are not extracted; (6) the atomic-answer theorem is about a model in which the "
-              "uncached computation reads one state; that intermediate states of a mutator answer like the state before "
-              "or after it is C04's subject.")
+              "is a may-call point; (5) providedBy, implementedBy(+Fallback), getObjectSpecification, SB_extends, "
+              "_foreign_decl_implies, CPB_descr_get, OSD_descr_get, IB__adapt__, IB__call__ are now extracted too (23 "
+              "functions); still table entries: CPython's own API and _get_module/_zic_state*/_get_adapter_hooks/"
+              "_get_specification_base_class (module state, no references); PyArg_ParseTuple* outputs are treated as "
+              "borrowed parameters; a function of that list that stops being extractable is reported, never silently "
+              "downgraded; (6) the atomic-answer theorem is about a model in which the uncached computation reads one "
+              "state; that intermediate states of a mutator answer like the state before or after it is C04's subject.")
 
-FN = {n: i for i, n in enumerate(cskeleton.FUNCS)}
+FN = dict(cskeleton.FN_ID)
+# functions of cskeleton.EXT_FUNCS that are allowed to stay entries of the API table (none: each of them is
+# extracted from today's source; one that stops being extractable is a broken obligation, fail closed)
+EXPECTED_TABLE_ENTRIES = set()
+PROVIDED_BY = ["providedBy", "implementedBy", "implementedByFallback", "getObjectSpecification"]
 ENTRY_FNS = {
     "lookup": ["_lookup", "_getcache", "_subcache"],
     "lookup1": ["_lookup1", "_lookup", "_getcache", "_subcache"],
-    "adapter_hook": ["_adapter_hook", "_lookup1", "_lookup", "_getcache", "_subcache"],
-    "queryAdapter": ["_adapter_hook", "_lookup1", "_lookup", "_getcache", "_subcache"],
-    "iface_call": ["_adapter_hook", "_lookup1", "_lookup", "_getcache", "_subcache"],
+    "adapter_hook": ["_adapter_hook", "_lookup1", "_lookup", "_getcache", "_subcache"] + PROVIDED_BY,
+    "queryAdapter": ["_adapter_hook", "_lookup1", "_lookup", "_getcache", "_subcache"] + PROVIDED_BY,
+    "iface_call": ["IB__call__", "IB__adapt__", "SB_extends", "_foreign_decl_implies", "_adapter_hook", "_lookup1",
+                   "_lookup", "_getcache", "_subcache"] + PROVIDED_BY,
     "lookupAll": ["_lookupAll", "_subcache"],
     "subscriptions": ["_subscriptions", "_subcache"],
     "changed": [],
@@ -232,13 +249,18 @@ def regenerate(run):
     except Exception:   # noqa
         desc = {}
     if isinstance(desc, list):
-        run.coverage["skeleton_paths"] = {f["name"]: len(f["paths"]) for f in desc}
+        run.coverage["skeleton_paths"] = {f["name"]: len(f["paths"]) for f in desc if "table_entry" not in f}
         run.coverage["skeleton_notes"] = [f["name"] + ": " + n for f in desc for n in f["notes"]]
+        table = {f["name"]: f["table_entry"] for f in desc if "table_entry" in f}
+        run.coverage["api_table_entries_instead_of_extraction"] = table
+        for name, why in sorted(table.items()):
+            if name not in EXPECTED_TABLE_ENTRIES:
+                errs.append("%s can no longer be extracted (%s): it would silently fall back to an API-table entry" % (name, why))
     # the Tie module must exist even when the proof obligation over today's skeleton breaks
     ok, out = C.coq_make(["Tie/C11.vo"])
     if not ok:
         errs.append("Tie/C11.v does not build: " + out[-1500:])
-    elif not errs:
+    elif not [e for e in errs if "aborted" in e]:
         fails = _d_failures(desc)
         run.coverage["discipline_failures"] = fails
         if fails:
